@@ -2,7 +2,8 @@
 //! cells of c18.rs do not reach, exercised inside operation histories on objects that are reused (one executor through several
 //! waves and its shutdown, the process-wide executor across cases, one FiberPool / Pipeline / blob store through >= 3 different
 //! operations), judged by the same dumb shadows (per-task counters, sequential application of the stage function, Vec / HashMap).
-//! Everything here is oracle-only (S-only): the Coq models do not know these operations.  Big inputs are described by
+//! Everything here is oracle-only (S-only): the Coq models do not know these operations - except the BatchCollector histories over
+//! unit / u8 / String items, which are also evaluated by the collector model (kind 4).  Big inputs are described by
 //! (which, n, seed, param) in the case, never spelled out.
 use super::*;
 use std::cell::{Cell, OnceCell};
